@@ -21,6 +21,9 @@ NCPU = os.cpu_count() or 4
 CXX = "g++"
 CXXFLAGS = ["-std=gnu++11", "-fopenmp", "-O2", "-DNDEBUG", "-D" + GUARD, "-w",
             "-DBOOST_ALL_DYN_LINK", "-DBOOST_RESULT_OF_USE_DECLTYPE", "-DBOOST_PARAMETER_MAX_ARITY=15"]
+ASAN_FLAGS = ["-std=gnu++11", "-fopenmp", "-O1", "-g", "-DNDEBUG", "-D" + GUARD, "-w", "-fsanitize=address,undefined",
+              "-fno-sanitize-recover=all", "-fno-omit-frame-pointer",
+              "-DBOOST_ALL_DYN_LINK", "-DBOOST_RESULT_OF_USE_DECLTYPE", "-DBOOST_PARAMETER_MAX_ARITY=15"]
 LIBS = ["-lboost_serialization", "-lboost_system", "-lboost_filesystem", "-lopenblas", "-lpthread"]
 
 
